@@ -104,9 +104,6 @@ func runCase(f *failer, c Case) {
 	if c.Derive == "array" && e.PtrRecvByValue {
 		return // pointer-receiver marshalers as array elements: open encoder finding, constructed around
 	}
-	if e.Methods == "mt-val" && (c.Derive == "ptr" || c.Derive == "structptr") {
-		return // nil pointer to a TextMarshaler: open encoder finding, constructed around
-	}
 	t := derive(e.Type, c.Derive)
 	rt.Journal("type", func() string { b, _ := stdjson.Marshal(c); return string(b) })
 	var v reflect.Value
@@ -350,7 +347,7 @@ func TestCheck(t *testing.T) {
 			runCase(f, Case{Type: e.Name, Fill: seed})
 			if !e.Composite && (k+rt.E.Shard)%3 == 0 { // a run-time-created type in between (heap descriptor)
 				d := derivations[(k/3+pass+rt.E.Shard)%len(derivations)]
-				if d == "struct" && (k/3)%2 == 0 && e.Methods != "mt-val" {
+				if d == "struct" && (k/3)%2 == 0 {
 					// first the pointer type of the same run-time struct (**S destination), then the struct (*S):
 					// both live in the fallback map only
 					runCase(f, Case{Type: e.Name, Derive: "pstruct", Fill: seed})
